@@ -7,7 +7,7 @@ from vf import core, models
 
 
 def run_order(d, gfa_text, chromosome_order, by_chrom, with_sequence=False, fname="g.gfa", sub="out",
-              reuse_existing=False):
+              reuse_existing=False, via="api"):
     from gaftools.cli.order_gfa import run_order_gfa
 
     path = os.path.join(d, fname)
@@ -21,7 +21,12 @@ def run_order(d, gfa_text, chromosome_order, by_chrom, with_sequence=False, fnam
     else:
         core.write_text(path, gfa_text)
     outdir = os.path.join(d, sub)
-    res = core.call(run_order_gfa, path, outdir, by_chrom, chromosome_order, with_sequence)
+    if via == "cli":
+        argv = ["order_gfa", "--chromosome_order", chromosome_order, "--outdir", outdir]
+        argv += (["--by-chrom"] if by_chrom else []) + (["--with-sequence"] if with_sequence else []) + [path]
+        res = core.cli(argv)
+    else:
+        res = core.call(run_order_gfa, path, outdir, by_chrom, chromosome_order, with_sequence)
     files = {}
     if os.path.isdir(outdir):
         for p in sorted(glob.glob(outdir + "/*")):
